@@ -811,3 +811,9 @@ M c14_heuristic_compares_mode C14 'C14.2e' 'unchanged test also compares the mod
 '    basis_entry.kind() == new_entry.kind()' \
 '    basis_entry.unix_mode() == new_entry.unix_mode()
         && basis_entry.kind() == new_entry.kind()'
+M c13_subdir_only_first C13 'C13.2d' 'index subdirectory created only for hunk 0' src/index/write.rs \
+'        if (self.sequence % HUNKS_PER_SUBDIR) == 0 {' '        if self.sequence == 0 {'
+M c13_sequence_skips C13 'C13.2c' 'sequence advances by two' src/index/write.rs \
+'        self.sequence += 1;' '        self.sequence += 2;'
+M c13_subdir_from_written C13 'C13.2d' 'subdirectory computed from hunks_written' src/index/write.rs \
+'                .create_dir(&subdir_relpath(self.sequence))' '                .create_dir(&subdir_relpath(self.hunks_written as u32))'
